@@ -25,7 +25,8 @@ vars == <<src, sys, stage, res, op>>
 
 \* 17 values per channel (step 16, plus 255), the whole grey axis, every (max,min) pair whose
 \* saturation is exactly 1/10 in two channel arrangements, grey-step rounding ties, +-1 around every entry of the two
-\* 16-colour palettes, all indexed colours as the constructors type them, default.
+\* 16-colour palettes, all indexed colours as the constructors type them, the 16 legacy-Windows colours and the
+\* 8-bit typed colours below 16 (reachable by building the Color tuple directly, or as earlier results), default.
 Lattice == {16 * i : i \in 0..15} \cup {255}
 TieColours == UNION { { Rgb(11 * j, 9 * j, 9 * j), Rgb(9 * j, 10 * j, 11 * j),
                         Rgb(255 - 9 * j, 255 - 11 * j, 255 - 9 * j), Rgb(255 - 11 * j, 255 - 10 * j, 255 - 9 * j) }
@@ -37,6 +38,7 @@ Around(pal) == UNION { { Rgb(Clip(pal[k][1] + d[1]), Clip(pal[k][2] + d[2]), Cli
                          : d \in {-1, 0, 1} \X {-1, 0, 1} \X {-1, 0, 1} } : k \in 1..Len(pal) }
 Sources == {Default}
            \cup { Std(n) : n \in 0..15 } \cup { Eight(n) : n \in 16..255 }
+           \cup { Win(n) : n \in 0..15 } \cup { Eight(n) : n \in 0..15 }      \* Color tuples built directly / earlier results
            \cup { Rgb(r, g, b) : r \in Lattice, g \in Lattice, b \in Lattice }
            \cup { Rgb(v, v, v) : v \in Byte }
            \cup TieColours \cup RoundTieColours \cup Around(StdPalette) \cup Around(WinPalette)
